@@ -67,3 +67,12 @@ REGISTRY.update({
     "C08": _mc("explicit-state enumeration of inputs x each irrelevant-data perturbation alone and all together x methods; bit-identity oracle",
                "Every bounded ARG x mutation menu x 9 perturbations (metadata under three codecs, schemas, populations, provenance, time_units, reference, edge metadata, state strings, monomorphic sites, known mutation times, individuals) x 5 method/option vectors: all numeric outputs bit-identical to the unperturbed run; a perturbed run may not fail where the plain one returns.", _META),
 })
+
+REGISTRY.update({
+    "C11": _mc("explicit-state enumeration of inputs x ALL permutations of non-sample ids x ALL linear extensions of the ancestor order (with ties and rescaled times); metamorphic oracle with objective-tie rule for maximization",
+               "Every bounded ARG with >=2 internal nodes x mutation menu x every renumbering of the internal nodes (<=120) x every linear extension of the node partial order as new input times (each also tied pairwise and scaled by 1e-3 / 1e6) x {inside_outside linear/log, maximization}: outputs mapped back agree to 1e-9; maximization may differ only at verified objective ties.", _META),
+    "C12": _mc("explicit-state enumeration of inputs x grids x priors x eps x standardisation; differential oracle linear vs logarithmic space with explicit underflow/overflow detection",
+               "Every bounded ARG x mutation menu (incl. all-zero and 20 per edge) x 4 grids x 2 prior distributions x 2 eps x outside_standardize x {inside_outside, maximization}: linear and logarithmic runs agree to 1e-8 on times, moments and every posterior row unless the linear run is seen to underflow/overflow; one space failing where the other returns is a violation.", _META),
+    "C38": _mc("explicit-state enumeration of inputs x ALL numberings of non-sample nodes x probability spaces; invariance + locality + inside-only oracles",
+               "Every bounded ARG with >=2 internal nodes x mutation menu x every numbering of the internal nodes x both spaces with ignore_oldest_root=True: results identical across numberings, nodes not below the oldest root identical to the option-off run, nodes whose only parent is the oldest root have posterior == normalised inside, and the option changes something below the root.", _META),
+})
